@@ -368,6 +368,23 @@ def run(ctx):
     if n_sites < 2:
         raise AnalysisError(f"EvalFuncVar*.call: only {n_sites} forwarding sites found")
 
+    ctx.rule("R11.13", "the evaluator stored in a function variable is the one that loaded the file - shared by everything defined there; it is used only when native code "
+             "calls the variable directly (__call__), never handed to code that runs script functions later (done callbacks run on the finished task's own evaluator)", floor=1)
+    n_get = 0
+    getter = program.func("eval.py::EvalFuncVar.get_ast_ctx")
+    users = []
+    for u in program.functions():
+        for n in body_walk(u.node):
+            if isinstance(n, ast.Call) and isinstance(n.func, ast.Attribute) and n.func.attr == "get_ast_ctx":
+                users.append((u.uid, n))
+    allowed = {}  # uid -> reason; nobody needs it today
+    for uid, n in users:
+        ctx.check(uid in allowed, "R11.13", uid, "use of the file-level evaluator of a function variable",
+                  msg=f"{uid}: `{short(getattr(n, '_parent', n))}` takes the evaluator that loaded the callback's file and keeps it for running the callback later: callbacks of that file "
+                  f"finishing close together run concurrently on one evaluator - the second switches its globals under the first (a function then resolves names in another file's globals)",
+                  key="file-level evaluator handed on", node=n, rel=uid.split("::")[0])
+    ctx.check(getter is not None, "R11.13", "eval.py::EvalFuncVar.get_ast_ctx", f"accessor present, {len(users)} caller(s) outside the class reviewed", msg="accessor vanished", key="accessor", rel="eval.py")
+
     ctx.rule("R11.11", "`from m import *` copies exactly the module's public names (those not starting with an underscore): private globals of the two files stay separate", floor=1)
     star_import_rule(ctx, program, "R11.11")
 
